@@ -43,15 +43,31 @@ def run(prop, tier, extra=None):
     chunk = 6000
     for i in range(0, len(scen), chunk):
         p.push(scen[i:i + chunk], "w%d" % (i // chunk), timeout=3000)
-    st2 = extra(p, v, tier) if extra else {}
+    st2 = {}
+    p2 = None
+    if prop in ("C02", "C04"):
+        # edit histories of every option container (spec/wire/ContainerGen, ContainerAbs)
+        hist, g3 = vlib.tlc_generate("wire/ContainerGen", "ContainerGen_q.cfg" if quick else "ContainerGen_t.cfg", timeout=1800)
+        uh = {}
+        for s in hist:
+            uh[vlib.canon_hash(s)] = s
+        hist = sorted(uh.values(), key=vlib.canon_hash)
+        p2 = vlib.Pipeline(prop, "containers", "wire/ContainerTrace", "ContainerTrace_%s.cfg" % prop)
+        for i in range(0, len(hist), 40000):
+            p2.push(hist[i:i + 40000], "c%d" % (i // 40000), timeout=3000)
+        p2.confirm(v, lambda scen, kind, detail, rec=None: {"family": "containers", "kind": kind, "container": scen.get("kind")})
+        st2 = {"container_histories": len(hist), "container_replay": p2.stats,
+               "container_rule": "every sequence of %d add / add-with-spoofed-length / remove / serialize operations over 11 container "
+                                 "kinds (TCP, IPv4, IPv6 extension headers, ICMPv6, DHCP, DHCPv6, 802.11 tagged parameters, PPPoE tags, "
+                                 "RTP CSRC list, LLC frame formats, MLDv2 records), checked after every operation" % (3 if quick else 4)}
     p.confirm(v, sig)
     rc = v.finish()
     distinct = {vlib.canon_hash(s) for s in scen if nontrivial(s)}
     cov = {
         "states": g.distinct + p.stats["tlc_states"], "transitions": g.generated + p.stats["tlc_generated"],
-        "traces_validated_against_impl": p.stats["executions"],
+        "traces_validated_against_impl": p.stats["executions"] + (p2.stats["executions"] if p2 else 0),
         "samples": [scen[len(scen) // 3]] + [{k: (x[k] if k != "bytes" else x[k][:64]) for k in x if k in ("shape", "vals", "size", "bytes", "bpf", "hs")} for x in p.samples[1:2]],
-        "evaluations": len(scen), "distinct_nontrivial": len(distinct),
+        "evaluations": len(scen) + st2.get("container_histories", 0), "distinct_nontrivial": len(distinct) + st2.get("container_histories", 0),
         "rule": "scenario = packet shape enumerated by TLC (WireGen: link {eth, 802.1Q, QinQ} x IPv4 with 7 option shapes | IPv6 "
                 "with 9 extension-header shapes x TCP with 8 option shapes | UDP | ICMP | ICMPv6 x 9 payload classes) with field "
                 "values concretised by the seeded driver (%d value sets per shape); checked clauses: %s; non-trivial = options / "
@@ -69,4 +85,9 @@ def run(prop, tier, extra=None):
 
 
 def replay(prop, path):
+    import json
+    with open(path) as f:
+        h = json.load(f)["replay"]["harness"]
+    if h == "containers":
+        return vlib.Pipeline(prop, "containers", "wire/ContainerTrace", "ContainerTrace_%s.cfg" % prop).replay_file(path)
     return vlib.Pipeline(prop, "wire_pkt", "wire/WireTrace", "WireTrace_%s.cfg" % prop).replay_file(path)
